@@ -287,7 +287,31 @@ func suiteCluster(c *Ctx) {
 		base0 := append([]gnode{}, base...)
 		infos = append(infos, binfo...)
 		for j := 0; j < k; j++ {
-			switch r.Intn(8) {
+			switch r.Intn(9) {
+			case 8: // slots that were owned become unowned: the last master fails, or the table loses its top / bottom slot
+				which := r.Intn(3)
+				for x := range base {
+					if !strings.Contains(base[x].flags, "master") || len(base[x].slots) == 0 {
+						continue
+					}
+					last := base[x].slots[len(base[x].slots)-1]
+					if which == 0 && strings.HasSuffix(last, "-16383") {
+						base[x].flags += ",fail"
+						kinds["unclaim"] = true
+						break
+					}
+					if which == 1 && strings.HasSuffix(last, "-16383") {
+						base[x].slots[len(base[x].slots)-1] = strings.TrimSuffix(last, "16383") + "16382"
+						kinds["unclaim"] = true
+						break
+					}
+					if which == 2 && strings.HasPrefix(base[x].slots[0], "0-") {
+						base[x].slots[0] = "1-" + strings.TrimPrefix(base[x].slots[0], "0-")
+						kinds["unclaim"] = true
+						break
+					}
+				}
+				events = append(events, "m"+bulk(textOf(base, r)), "t")
 			case 7: // failover: a master and one of its replicas swap roles (same addresses)
 				for x := range base {
 					if base[x].flags == "slave" {
